@@ -204,7 +204,7 @@ func costCase(in costIn, tags ...string) caseRec {
 			aos = append(aos, types.AttributedObservation{Observation: raw, Observer: commontypes.OracleID(i)})
 		}
 		prev, _ := n.plugin.OutcomeCodec.Encode(llo.Outcome{LifeCycleStage: "production", ObservationTimestampNanoseconds: 1699999999e9,
-			ChannelDefinitions: llotypes.ChannelDefinitions{1: {ReportFormat: llotypes.ReportFormatJSON, Streams: []llotypes.Stream{{StreamID: 1, Aggregator: llotypes.AggregatorMedian}, {StreamID: 2, Aggregator: llotypes.AggregatorMedian}}}},
+			ChannelDefinitions:    llotypes.ChannelDefinitions{1: {ReportFormat: llotypes.ReportFormatJSON, Streams: []llotypes.Stream{{StreamID: 1, Aggregator: llotypes.AggregatorMedian}, {StreamID: 2, Aggregator: llotypes.AggregatorMedian}}}},
 			ValidAfterNanoseconds: map[llotypes.ChannelID]uint64{1: 1699999998e9}})
 		run(size+len(prev), func() error {
 			o, err := n.plugin.Outcome(ctx, ocr3types.OutcomeContext{SeqNr: 5, PreviousOutcome: prev}, nil, aos)
